@@ -8,10 +8,11 @@ EXTENDS StoreProps, Json
 
 CONSTANTS Menu, MaxFlushes, MaxCrashes, Depth, Sorted, AllowClose, AllowCrash,
           FieldMenu,   \* [Tables -> Seq(field list)]: successive definitions applied by Alter
-          WhereMenu    \* [Tables -> Seq(where id)]
+          WhereMenu,   \* [Tables -> Seq(where id)]
+          MaxScans     \* paused scans per behaviour (C18)
 
-VARIABLES hist, crashes, nalt
-svars == <<vars, hist, crashes, nalt>>
+VARIABLES hist, crashes, nalt, scans, nscans
+svars == <<vars, hist, crashes, nalt, scans, nscans>>
 
 H(rec) == hist' = Append(hist, rec)
 
@@ -50,28 +51,29 @@ CleanClose ==
   /\ UNCHANGED <<wal, clock, rd, pend, fl, where, flds>>
 
 SimInit == Init /\ hist = <<>> /\ crashes = 0 /\ nalt = [t \in Tables |-> [f |-> 0, w |-> 0]]
+           /\ scans = {} /\ nscans = 0
 
 SimNext ==
   \/ /\ Len(wal) < Len(Menu)
-     /\ Insert(Menu[Len(wal) + 1]) /\ H([a |-> "Insert", i |-> Len(wal) + 1]) /\ UNCHANGED <<crashes, nalt>>
+     /\ Insert(Menu[Len(wal) + 1]) /\ H([a |-> "Insert", i |-> Len(wal) + 1]) /\ UNCHANGED <<crashes, nalt, scans, nscans>>
   \/ \E t \in Tables :
-       \/ pend[t] = <<>> /\ Decide(t) /\ H([a |-> "Decide", t |-> t]) /\ UNCHANGED <<crashes, nalt>>
-       \/ Apply(t) /\ H([a |-> "Apply", t |-> t]) /\ UNCHANGED <<crashes, nalt>>
+       \/ pend[t] = <<>> /\ Decide(t) /\ H([a |-> "Decide", t |-> t]) /\ UNCHANGED <<crashes, nalt, scans, nscans>>
+       \/ Apply(t) /\ H([a |-> "Apply", t |-> t]) /\ UNCHANGED <<crashes, nalt, scans, nscans>>
        \/ /\ nextFile + Cardinality({u \in Tables : fl[u].pc \in {"begun", "temp"}}) <= MaxFlushes
           /\ \E s \in Sorted : FlushBegin(t, s) /\ H([a |-> "FlushBegin", t |-> t, sorted |-> s])
-          /\ UNCHANGED <<crashes, nalt>>
-       \/ FlushTemp(t) /\ H([a |-> "FlushTemp", t |-> t]) /\ UNCHANGED <<crashes, nalt>>
-       \/ FlushRename(t) /\ H([a |-> "FlushRename", t |-> t]) /\ UNCHANGED <<crashes, nalt>>
-       \/ FlushSwap(t) /\ H([a |-> "FlushSwap", t |-> t]) /\ UNCHANGED <<crashes, nalt>>
-       \/ OffWrite(t) /\ H([a |-> "OffWrite", t |-> t]) /\ UNCHANGED <<crashes, nalt>>
+          /\ UNCHANGED <<crashes, nalt, scans, nscans>>
+       \/ FlushTemp(t) /\ H([a |-> "FlushTemp", t |-> t]) /\ UNCHANGED <<crashes, nalt, scans, nscans>>
+       \/ FlushRename(t) /\ H([a |-> "FlushRename", t |-> t]) /\ UNCHANGED <<crashes, nalt, scans, nscans>>
+       \/ FlushSwap(t) /\ H([a |-> "FlushSwap", t |-> t]) /\ UNCHANGED <<crashes, nalt, scans, nscans>>
+       \/ OffWrite(t) /\ H([a |-> "OffWrite", t |-> t]) /\ UNCHANGED <<crashes, nalt, scans, nscans>>
   \/ /\ AllowCrash /\ crashes < MaxCrashes /\ Len(wal) > 0
-     /\ Crash /\ crashes' = crashes + 1 /\ H([a |-> "Crash"]) /\ UNCHANGED nalt
+     /\ scans = {} /\ Crash /\ crashes' = crashes + 1 /\ H([a |-> "Crash"]) /\ UNCHANGED <<nalt, scans, nscans>>
   \/ /\ AllowClose /\ crashes < MaxCrashes /\ Len(wal) > 0
-     /\ CleanClose /\ crashes' = crashes + 1 /\ H([a |-> "Close"]) /\ UNCHANGED nalt
-  \/ StartAll /\ H([a |-> "Start"]) /\ UNCHANGED <<crashes, nalt>>
+     /\ scans = {} /\ CleanClose /\ crashes' = crashes + 1 /\ H([a |-> "Close"]) /\ UNCHANGED <<nalt, scans, nscans>>
+  \/ StartAll /\ H([a |-> "Start"]) /\ UNCHANGED <<crashes, nalt, scans, nscans>>
   \/ /\ up /\ opened = Tables
      /\ hist # <<>> /\ hist[Len(hist)].a # "Probe"
-     /\ UNCHANGED <<vars, crashes, nalt>> /\ H([a |-> "Probe"])
+     /\ UNCHANGED <<vars, crashes, nalt, scans, nscans>> /\ H([a |-> "Probe"])
 
 \* table.Alter as the harness can drive it: ApplySchema returns once the row
 \* store has taken the new field list, so AlterFields and RSFields are one step
@@ -93,7 +95,7 @@ AlterBoth(t) ==
                 /\ UNCHANGED offFile
         /\ H([a |-> "AlterFields", t |-> t, fs |-> fs])
   /\ nalt' = [nalt EXCEPT ![t].f = @ + 1]
-  /\ UNCHANGED <<wal, clock, up, opened, rd, pend, cur, disk, flushCount, where, nextFile, crashes>>
+  /\ UNCHANGED <<wal, clock, up, opened, rd, pend, cur, disk, flushCount, where, nextFile, crashes, scans, nscans>>
 
 AlterW(t) ==
   /\ nalt[t].w < Len(WhereMenu[t])
@@ -101,9 +103,25 @@ AlterW(t) ==
   /\ LET w == WhereMenu[t][nalt[t].w + 1]
      IN AlterWhere(t, w) /\ H([a |-> "AlterWhere", t |-> t, w |-> w])
   /\ nalt' = [nalt EXCEPT ![t].w = @ + 1]
-  /\ UNCHANGED crashes
+  /\ UNCHANGED <<crashes, scans, nscans>>
 
-SimNextAll == SimNext \/ \E t \in Tables : AlterBoth(t) \/ AlterW(t)
+\* A scan that is held after its j-th row while the pipeline moves on (C18):
+\* ScanBegin is rowStore.iterate's snapshot, ScanEnd the delivery of the rest.
+ScanBegin(t, m, j) ==
+  /\ up /\ opened = Tables /\ t \notin scans /\ nscans < MaxScans
+  /\ View(t) # EmptyBag
+  /\ scans' = scans \cup {t} /\ nscans' = nscans + 1
+  /\ H([a |-> "ScanBegin", t |-> t, mem |-> m, j |-> j])
+  /\ UNCHANGED <<vars, crashes, nalt>>
+ScanEnd(t) ==
+  /\ t \in scans
+  /\ scans' = scans \ {t}
+  /\ H([a |-> "ScanEnd", t |-> t])
+  /\ UNCHANGED <<vars, crashes, nalt, nscans>>
+
+SimNextAll == \/ SimNext
+              \/ \E t \in Tables : AlterBoth(t) \/ AlterW(t) \/ ScanEnd(t)
+              \/ \E t \in Tables, m \in BOOLEAN, j \in 0..2 : ScanBegin(t, m, j)
 
 SimSpec == SimInit /\ [][SimNextAll]_svars
 
